@@ -28,7 +28,8 @@ Definition slots_eqb (a b : slots) : bool :=
   option_eqb N.eqb (s_owner a) (s_owner b) &&
   option_eqb (fun x y => let '(a1, a2, a3) := x in let '(b1, b2, b3) := y in
                          Bool.eqb a1 b1 && Bool.eqb a2 b2 && Bool.eqb a3 b3)
-             (s_status a) (s_status b).
+             (s_status a) (s_status b) &&
+  option_eqb N.eqb (s_mintable a) (s_mintable b).
 
 Definition state_eqb (a b : cstate) : bool :=
   String.eqb (c_name a) (c_name b) && String.eqb (c_version a) (c_version b) &&
